@@ -81,7 +81,8 @@ PINNED = {
             "vtable fn-pointer fields are matched to their closures by field name (any name, but the same on both sides)"],
     "C20": ["type names: Arena, Context, Metrics", "macro names: thread_local!, lazy_static!", "allow-list of pure std constructors (Model/CallGraphM.pureExternal)"],
     "C09": ["module src/metrics.rs", "Pacing and its seven field names", "Pacing::DEFAULT, Pacing::STOP_THE_WORLD", "impl Default for Pacing returning Self::DEFAULT / Pacing::DEFAULT",
-            "MetricsInner and its ten field names", "Metrics(Rc<MetricsInner>)", "Metrics::new with body `Self(Default::default())`"],
+            "type name Metrics; its parameterless constructor is found structurally and evaluated through Default derives/impls, Rc/Box/Cell wrappers and nested private structs (no field or helper-struct name pinned); "
+            "state cells must be numeric primitives or Pacing"],
     "C13": ["module src/barrier.rs", "Write (field __inner, #[non_exhaustive])", "traits DerefWrite, IndexWrite, Unlock (method unlock_unchecked)",
             "Write::{assume, from_static, from_mut, __from_ref_and_ptr} (constructor kinds by name)", "Write::{unlock, as_deref} and <Write as Index>::index (bodies compared token-wise), Write::as_write (structural)",
             "Gc::write: `backward_barrier(Gc::erase(<param>), None)` before `Write::assume`", "macros __field, __unlock (shape, metavariable names free)",
@@ -225,16 +226,13 @@ def cmpP (nm : String) (a b : Pacing) : List String :=
   for s in cmpP "Pacing::STOP_THE_WORLD" pacingStw Pacing.stopTheWorld do IO.println ("VIOL pacing: " ++ s)
   unless defaultImplConst == "DEFAULT" do IO.println s!"VIOL default-impl: <Pacing as Default>::default returns `{defaultImplConst}`, the model assumes DEFAULT"
   -- (field mismatches of the constant the impl returns are reported once, under that constant)
-  let a := metricsNew
-  let b := Metrics.new
-  unless a.pacing = pacingOfDefaultImpl do IO.println "VIOL metrics-new: Metrics::new().pacing is not <Pacing as Default>::default()"
-  for s in cmpN "Metrics::new().total_gcs" a.totalGcs b.totalGcs ++
-      cmpR "Metrics::new().wakeup_amount" a.wakeup b.wakeup ++ cmpR "Metrics::new().artificial_debt" a.artificial b.artificial ++
-      cmpN "Metrics::new().allocated_gcs" a.allocated b.allocated ++ cmpN "Metrics::new().dropped_gcs" a.dropped b.dropped ++
-      cmpN "Metrics::new().freed_gcs" a.freed b.freed ++ cmpN "Metrics::new().marked_gcs" a.marked b.marked ++
-      cmpN "Metrics::new().traced_gcs" a.traced b.traced ++ cmpN "Metrics::new().remembered_gcs" a.remembered b.remembered do
-    IO.println ("VIOL metrics-new: " ++ s)
-  IO.println s!"INFO defaultOk={decide (pacingDefault = Pacing.default)} stwOk={decide (pacingStw = Pacing.stopTheWorld)} newOk={decide (metricsNew = Metrics.new)} defaultImpl={defaultImplConst}"
+  for c in metricsNewCells do
+    unless c.2 = 0 do IO.println s!"VIOL metrics-new: Metrics::new().{c.1}: source {repr c.2}, model 0"
+  unless metricsNewCells.length ≥ 9 do IO.println s!"VIOL metrics-new: only {metricsNewCells.length} numeric state cells found in Metrics::new(), the model has 9 counters"
+  unless metricsNewPacings.length = 1 do IO.println s!"VIOL metrics-new: {metricsNewPacings.length} Pacing cells found in Metrics::new(), the model has 1"
+  for c in metricsNewPacings do
+    unless c.2 = Metrics.new.pacing do IO.println s!"VIOL metrics-new: Metrics::new().{c.1} is not the model's default pacing"
+  IO.println s!"INFO defaultOk={decide (pacingDefault = Pacing.default)} stwOk={decide (pacingStw = Pacing.stopTheWorld)} newOk={metricsNewCells.all (fun c => c.2 = 0) && metricsNewPacings.map (·.2) == [Metrics.new.pacing]} cells={metricsNewCells.length} defaultImpl={defaultImplConst}"
 '''
 
 EVAL = {
@@ -562,7 +560,7 @@ def _theorem_for(prop, v):
         if v.startswith("default-impl:"):
             return "GcArena.C09s.default_impl_is_default"
         if v.startswith("metrics-new:"):
-            return "GcArena.C09s.metrics_new_matches_source"
+            return "GcArena.C09s.required_metrics_cells" if " cells found in " in v else "GcArena.C09s.metrics_new_matches_source"
         return "GcArena.C09s.pacing_consts_classified"
     if prop == "C12":
         return "GcArena.C12s.no_collect_impl_hides_brand" if v.startswith("hidden:") else "GcArena.C12s.table_ok"
@@ -747,6 +745,18 @@ def run(prop, tier, seed):
             d["key"] = key
         res["problems"].append(d)
 
+    # environment overrides: recorded in the evidence; the ones that redirect the regenerated tables
+    # away from lean/GcArena/Generated (which `lake build GcArena.Props.*` reads) are refused under ./check
+    overrides = {k: os.environ[k] for k in ("VERIF_TABLES_REPO", "VERIF_TABLES_LEAN_OUT", "VERIF_TABLES_LEAN_DIR", "VERIF_TABLES_ELAB") if os.environ.get(k)}
+    res["summary"]["overrides"] = overrides
+    if "vcheck" in sys.modules and (overrides.get("VERIF_TABLES_LEAN_OUT") or overrides.get("VERIF_TABLES_LEAN_DIR")):
+        problem("tables-override-under-check", "VERIF_TABLES_LEAN_OUT / VERIF_TABLES_LEAN_DIR are set: the regenerated tables would go elsewhere while the property "
+                "theorems are built against lean/GcArena/Generated — refused under ./check (only direct engine runs may use these overrides)", False,
+                [f"property {prop}: environment override refused under ./check: " + ", ".join(f"{k}={v}" for k, v in overrides.items()),
+                 "unset VERIF_TABLES_LEAN_OUT / VERIF_TABLES_LEAN_DIR and run ./check again"], [])
+        res["summary"] = {"eng_tables": res["summary"]}
+        return res
+
     # 1. translator ---------------------------------------------------------------------------
     ok, exe, log = build_extractor()
     timings["build_extractor"] = round(time.time() - t0, 2)
@@ -802,7 +812,7 @@ def run(prop, tier, seed):
         res["summary"]["lifetime_params"] = {a["name"]: a["params"] for a in tables["brandflow"]["adts"]}
     elif prop in ("C09", "C10"):
         pc = tables["pacing"]
-        entries = sum(len(c["fields"]) for c in pc["consts"]) + 1 + len(pc["metrics_new"])
+        entries = sum(len(c["fields"]) for c in pc["consts"]) + 1 + len(pc["metrics_new"])  # metrics_new: every numeric / Pacing state cell of Metrics::new()
         res["summary"]["pacing_consts"] = pc
         # optional run-time cross-check: the f64 the compiler produced for each literal is the f64
         # nearest to the exact rational the Lean side was given
